@@ -54,7 +54,7 @@ def check(ctx):
                   SReadSizes=[5000], MaxSteps=2, ResetMode="any", _expect_ops=["Reset", "Decode", "Collect", "FromTo"])
     fdlib.run_config(ctx, "MC_FD_dictionaries", "dict", params, cuts="full",
                      what="dictionary frames (two dictionaries, one unknown id) mixed with plain and probe frames on one decoder",
-                     select=lambda f: f["name"].startswith("d") or f["name"] in ("probe_reach", "probe_treeless", "probe_rep_ll", "rep_start"))
+                     select=lambda f: f["name"].startswith(("dA_", "dB_", "d_missing")) or f["name"] in ("probe_reach", "probe_treeless", "probe_rep_ll", "rep_start"))
     # ---- trained dictionaries ----
     rep = ctx.path("c09trained.json")
     vh(ctx, ["c09trained", ctx.seed, ctx.tier, rep], timeout=7200)
